@@ -157,7 +157,9 @@ impl Monitor for C02 {
                                 if let Some((xs, _)) = normalise(&r0, &pi.asset_decimals) {
                                     let mx = xs.iter().max().unwrap();
                                     let mn = xs.iter().min().unwrap();
-                                    if mx > &(mn * 1000u32) {
+                                    // ... or an asset holds fewer than 1000 smallest units (dust pool: the
+                                    // granularity of that reserve alone is above 0.1%)
+                                    if mx > &(mn * 1000u32) || r0.iter().any(|x| *x < 1000) {
                                         v.finding = Some("S9-stableswap-skewed-pool-accuracy".into());
                                         v.truncate = false;
                                     }
